@@ -848,7 +848,15 @@ rt_prop("C07", ["task", "cancel", "comb"],
         "RExec, RRun: every leaf id and join-handle id mentioned by any stored or queued task of any command exists — through one "
         "poll of ANY block, also blocks hosting commands, by a single grind call over pollBlock, then executor, knot, command "
         "building, shell): for ANY command under the direct host after ANY history, a host-free task that run_task discards was "
-        "dead. COMPLETENESS, one-request case "
+        "dead. NO STRANDED TASK over whole runs — stored_task_queued_or_parked, settled_tasks_are_parked (global invariant GInv, "
+        "Lemmas/PFrame, WPoll, Park, GPark): for every host-free task program under the direct host after every history, every "
+        "task in the slab is on the ready queue, aborted through its join handle, or LIVE-PARKED — the waker of its last poll is "
+        "registered at every request leaf, stream leaf and join-handle queue it is suspended at; the proof combines K2 (the polled "
+        "task parks itself), poll_keeps_others_parked (a poll leaves every leaf it does not reference untouched and only appends to "
+        "join queues and ready queues — frames by grind — plus channel ownership from C02), woken_means_queued (every waker with "
+        "the poll's serial is the poll's own, so a `woken` flag implies the task id was pushed — plus freshness) and WFw, through "
+        "run_task, finishing with join-handle wake-ups, spawning, settling and the shell's resolve / drop / abort (taking a "
+        "leaf's waker wakes exactly the task parked there). COMPLETENESS, one-request case "
         "(evict_complete_dropped_request_partial): a task suspended at a one-shot request whose Request was dropped is discarded by "
         "its next poll (fresh waker serial, task not aborted); evict_complete_dropped_request_reachable — the same in every world the "
         "direct host of any command reaches after any history, without the freshness hypothesis, by the GLOBAL INVARIANT "
